@@ -93,9 +93,20 @@ def install():
     orig_sorted = _models.BUILTIN_MODELS[sorted]
 
     def m_sorted(I, it, key=None, reverse=False):
-        if isinstance(it, AList):
-            if key is not None:
+        if isinstance(it, AList) and key is not None:
+            root = it.root()
+            make = getattr(root, "make_element", None)
+            if make is None or it.base is not None:
                 raise Unsupported("sorted(abstract list, key=...)")
+            I.elem_n = getattr(I, "elem_n", 0) + 1
+            g = z3.Const(f"generic!{I.elem_n}", Elem)
+            kv = I.call(key, [make(I, g)], {})
+            r = AList(it.cls, it.n, it.elem, name=it.name + "_sortedby", sorted_=True, pred=(lambda e: z3.BoolVal(True)), base=it)
+            r.sort_key = (g, kv, bool(reverse))
+            r.make_element = make
+            r.describe_map = getattr(root, "describe_map", None)
+            return r
+        if isinstance(it, AList):
             r = AList(it.cls, it.n, it.elem, name=it.name + "_sorted", sorted_=True, pred=it.pred, base=it.base)
             if it.base is None:
                 r.base, r.pred = it, (lambda e: z3.BoolVal(True))
@@ -110,8 +121,9 @@ def install():
             g0 = e.generators[0]
             src = self.eval(g0.iter, f)
             if isinstance(src, AList):
-                if not (isinstance(g0.target, ast.Name) and isinstance(e.elt, ast.Name) and e.elt.id == g0.target.id):
-                    raise Unsupported("only filtering comprehensions [c for c in xs if ...] over abstract lists")
+                if not isinstance(g0.target, ast.Name):
+                    raise Unsupported("comprehension over an abstract list with a non-name target")
+                identity = isinstance(e.elt, ast.Name) and e.elt.id == g0.target.id
                 from . import task as T
                 self.elem_n = getattr(self, "elem_n", 0) + 1
                 gterm = z3.Const(f"generic!{self.elem_n}", Elem)
@@ -122,16 +134,46 @@ def install():
                 ctx = list(self.pc)
                 outer_assumed = len(self.assumptions)
 
+                make = getattr(root, "make_element", None)
+
+                def element():
+                    return make(self, gterm) if make is not None else obj_of(self, src.cls, gterm, getattr(root, "valid", None))
+
                 def cond_fn():
-                    fr.env[name] = obj_of(self, src.cls, gterm, getattr(root, "valid", None))
+                    fr.env[name] = element()
                     for c in ifs:
                         if not self.truthy(self.eval(c, fr)):
                             return False
                     return True
-                cond_fn._pyvc_spec = True
                 formula = _nested_formula(self, cond_fn, ctx)
                 pred = (lambda el, formula=formula, gterm=gterm: z3.substitute(formula, (gterm, el)))
-                return AList(src.cls, src.n, src.elem, name=f"{src.name}_f{self.elem_n}", pred=pred, base=src)
+                out = AList(src.cls, src.n, src.elem, name=f"{src.name}_f{self.elem_n}", pred=pred, base=src)
+                if not identity:
+                    # mapped comprehension [f(c) for c in xs if ...]: f is evaluated for the generic element on every path
+                    # that passes the filter; the task supplies `describe_map` to turn the results into a description
+                    results = []
+
+                    def map_fn():
+                        el = element()
+                        fr.env[name] = el
+                        for c in ifs:
+                            if not self.truthy(self.eval(c, fr)):
+                                return True
+                        v = self.eval(e.elt, fr)
+                        results.append((el, v))
+                        return True
+                    try:
+                        _nested_formula(self, map_fn, ctx)
+                        out.map_error = None
+                    except Unsupported as u:
+                        if "raised" not in str(u):
+                            raise
+                        out.map_error = str(u)
+                    describe = getattr(root, "describe_map", None)
+                    if describe is None:
+                        raise Unsupported("mapped comprehension over an abstract list without a map description")
+                    out.map_desc = describe(results)
+                return out
             f.env["__comp_iter__"] = src
             e2 = ast.copy_location(type(e)(**{k: getattr(e, k) for k in e._fields}), e)
             e2.generators = [ast.comprehension(target=g0.target, iter=ast.copy_location(
@@ -139,6 +181,14 @@ def install():
             return orig_comp(self, e2, f, kind)
         return orig_comp(self, e, f, kind)
     Interp.comp = comp
+
+    orig_getattr = Interp.getattr
+
+    def getattr_(self, obj, name):
+        if isinstance(obj, AList):
+            raise Unsupported(f"list.{name} on an abstract list")
+        return orig_getattr(self, obj, name)
+    Interp.getattr = getattr_
 
     orig_iterate = Interp.iterate
 
@@ -154,6 +204,7 @@ def _nested_formula(I, thunk, ctx):
     (relative to ctx); the interpreter's path state is saved and restored"""
     saved = (I.decisions, I.pos, I.pc, I.heap, I.writes, I.local_ids, I.path_obligations, I.keep, I.defs,
              getattr(I, "amaps", None), getattr(I, "generic", None), I.cur_model, I.cur_model_key)
+    saved_base = list(getattr(I, "base_pc", ()))
     I.base_pc = list(ctx)
     parts = []
     try:
@@ -163,7 +214,7 @@ def _nested_formula(I, thunk, ctx):
             if p["value"] is True:
                 parts.append(z3.And(*p["pc"][len(ctx):]) if p["pc"][len(ctx):] else z3.BoolVal(True))
     finally:
-        I.base_pc = []
+        I.base_pc = saved_base
         (I.decisions, I.pos, I.pc, I.heap, I.writes, I.local_ids, I.path_obligations, I.keep, I.defs,
          am, gen, I.cur_model, I.cur_model_key) = saved
         if am is not None:
